@@ -41,7 +41,7 @@ from core import Eval
 PROPERTY = "C19"
 DRIVER = "drv_c19"
 PROPS = ["PartituraModel.Props.C19", "PartituraModel.Props.C19Write", "PartituraModel.Props.C19MeiWrite",
-         "PartituraModel.Props.C19Dispatch"]
+         "PartituraModel.Props.C19Dispatch", "PartituraModel.Props.C19Sections"]
 TRUSTED = [
     "lxml tokenisation of the MEI text into open/close events (the harness does nothing else to the document), also of the "
     "text save_mei writes; numpy loadtxt/genfromtxt splitting of kern rows into cells, np.savetxt joining them",
@@ -70,6 +70,13 @@ PARTIAL = [
     "(refused by importer and model alike), nested tuplets, staffDef changes inside a section are outside the generated subset",
     "verovio path of load_mei not exercised (not installed); 2 MEI fixtures need it and are skipped, 1 kern fixture has a malformed header (load only)",
     "load_score: URLs (downloaded first) and file-like objects are not modelled",
+    "MEI structure: proved (Props/C19Sections) are the tie list = every <tie> of the document wherever it stands, sibling sections = one "
+    "section, a section nested in a section = its content, section attributes irrelevant - for section attributes without @dur / "
+    "@meter.unit (no section has them); that <ending> is as transparent, that a scoreDef change may stand at the end of the previous "
+    "container / between containers / directly in <score>, and that the ORDER of the <tie> elements does not matter (distinct start "
+    "ids) is compared on generated documents (each also written flat and loaded a second time), not proved",
+    "MEI: <ending> / <scoreDef> directly in <score> BEFORE the first section, <tie> as a child of <section> or <layer> (not allowed by "
+    "the CMN schema; the importer refuses them), tupletSpan / @tie as the only encoding of a tuplet / tie are not generated",
 ]
 RULE = ("abstract scores (1-3 staves x 1-2 voices x 1-4 measures; 13 meters incl. 5/8, 7/8, 4/2; pickups; meter and key changes; "
         "plain / dotted / double-dotted / tuplet (3:2, 5:4, 6:4, 7:4, dotted-in-tuplet) values down to 32nds, breves and longs; "
@@ -94,7 +101,9 @@ LEVEL_TEXT = ("Lean theorems over all inputs: the denotational semantics of kern
               "additivity, tie joining note by note, grace notes, exact divisions, inferred ppq); export_import for both writers - "
               "for every Exportable part (explicit decidable predicate) the written document denotes every note with its onset, "
               "duration, spelling and staff, proved against the same semantics the importers are compared with; load_score picks "
-              "the documented reader for every supported extension in any case and rejects all others. Models are tied to the code "
+              "the documented reader for every supported extension in any case and rejects all others; the MEI semantics collects every "
+              "<tie> of the document wherever it stands and does not depend on how the measures are cut into sibling or nested "
+              "sections (all event lists, any depth). Models are tied to the code "
               "by exact comparison of the writers' output, of the loaded scores and of the dispatch on generated inputs and every "
               "fixture, with an independent Python oracle computed from the abstract score.")
 SEARCH_LIMIT = 1500
@@ -2703,10 +2712,40 @@ def has_tied_chord(d):
                for st in a["staves"] for v in st["voices"] for mm in v if mm for e in mm)
 
 
+def score_level_items(d):
+    """does the MEI document hold a scoreDef change or an ending directly in <score>, between the sections (F-C19-29)?"""
+    if d.get("k") != "mei":
+        return False
+    try:
+        opt = d["opt"]
+        toks = tree_tokens(mei_tree(opt, n_measures(d["asc"])))
+        chg = set(int(k) for k in list(d["asc"].get("meterchg", {})) + list(d["asc"].get("keychg", {})))
+        depth, after_closes, in_closes = 0, 0, False
+        for t in toks:
+            if t[0] == "o":
+                if depth == 0 and t[1] == "end":
+                    return True
+                depth += 1
+                in_closes = False
+            elif t[0] == "c":
+                depth -= 1
+                if in_closes:
+                    after_closes = depth      # depth after the closing tags that follow the last measure
+            else:
+                if opt.get("sd_at") == "between" and t[1] > 0 and t[1] in chg and after_closes == 0 and not in_closes:
+                    return True               # the scoreDef stands after those closing tags: directly in <score>
+                in_closes, after_closes = True, depth
+    except Exception:
+        return False
+    return False
+
+
 def finding_key(d, f):
     clause = f.split(":")[0]
     if d["k"] == "kern" and clause == "ties" and has_tied_chord(d):
         return "kern:ties:chord"
+    if d["k"] == "mei" and score_level_items(d):
+        return "mei:score-level"
     return d["k"] + ":" + clause
 
 
